@@ -15,13 +15,41 @@ RULE = ("VROOM on the binary-child partitions (Bin, RBin, K2, RK2), d=1..3, n in
         "per round: credited cells = chain from the drawn cell to the cap, point inside drawn and deepest cell; "
         "non-trivial = >= 50 pulls checked")
 ASSUMPTIONS = [
-    "NumPy's categorical sampler is trusted once its arguments are verified (the draw itself is not re-tested in the quick tier)",
+    "when the draw goes through np.random.choice its arguments are compared element-wise; in addition (and as the only judge of the distribution when the draw is made some other way) the drawn cells of all pulls are pooled per depth and per rank bucket and compared with the published probabilities at 6.5 sigma",
     "lower confidence value = mean - sqrt(ln(4 n^3/delta)/(2T)), -inf for unvisited cells; ties in rank order accepted",
     "partitions with other than 2 children per cell are a known finding of C01 and not part of this property",
 ]
 FLOOR = {"vroom_pulls_checked": {"quick": 6000, "thorough": 48000},
          "rank_orders_checked": {"quick": 40000, "thorough": 320000},
-         "vroom_chains_checked": {"quick": 6000, "thorough": 48000}}
+         "vroom_chains_checked": {"quick": 6000, "thorough": 48000},
+         "draws_pooled_for_the_frequency_test": {"quick": 6000, "thorough": 48000}}
+ZMAX = 6.5  # two-sided normal tail 8e-11 per bucket; about 20 buckets
+
+
+def post(pooled, obs, tier):
+    """pooled frequency monitor over all pulls of all cases: per depth bucket and per rank bucket, the number of
+    draws that fell into the bucket against the sum of the bucket's probabilities under 1/(h r C)"""
+    out = {"violations": [], "inconclusive": [], "coverage": {}}
+    table = {}
+    for k, hits_p in pooled.items():
+        if not k.startswith("~p|"):
+            continue
+        b = k[3:]
+        ssum, var, hits = hits_p, pooled.get("~v|" + b, 0.0), pooled.get("~hit|" + b, 0)
+        if var < 25:
+            continue  # (normal approximation not trusted; bucket not judged)
+        z = (hits - ssum) / math.sqrt(var)
+        table[b] = {"draws_in_bucket": int(hits), "expected": round(ssum, 2), "z": round(z, 2)}
+        if abs(z) > ZMAX:
+            out["violations"].append({"pred": "C13:drawn_cells_do_not_follow_the_rank_distribution", "algo": "VROOM",
+                                      "round": None, "detail": dict(table[b], bucket=b,
+                                                                    meaning="hNN = depth NN, rNN = ranks 2^(NN-1)..2^NN-1")})
+    out["coverage"]["pooled_frequency_test"] = {"buckets_judged": len(table), "z_limit": ZMAX, "buckets": table}
+    if not table and obs.get("draws_pooled_for_the_frequency_test", 0) > 0:
+        out["inconclusive"].append("pooled frequency test judged no bucket")
+    return out
+
+
 WALL = {"quick": 1200, "thorough": 4 * 3600}
 
 
